@@ -265,7 +265,11 @@ pub fn check(rep: &mut CaseReport, events: &[Event], view: &WireView, p: &Params
                 let a = idx_of(pk.ack);
                 // an emission meets the immediate obligation of this step
                 if let Some((t, ev, why)) = immediate {
-                    if e.t == t && i > ev {
+                    // (lateness is judged by settle_immediate before every event; an emission that
+                    // gets here after the stimulus is in time - with the transport blocked on and
+                    // off the moment owed may lie later than this emission)
+                    let _ = t;
+                    if i > ev {
                         if why.contains("zero window") && pk.wnd == 0 {
                             // must announce the re-opened window
                         } else {
